@@ -7,6 +7,8 @@ MODULES = {
     "rueidisaside": {"dir": "rueidisaside", "harness": "rueidisaside", "package": "rueidisaside"},
     "rueidislock": {"dir": ".", "pkgdir": "rueidislock", "harness": "rueidislock", "package": "rueidislock"},
     "om": {"dir": "om", "harness": "om", "package": "om"},
+    "rueidislimiter": {"dir": "rueidislimiter", "harness": "rueidislimiter", "package": "rueidislimiter",
+                       "extra_mod": ["require github.com/anishathalye/porcupine v1.3.0"]},
     "rueidisprob": {"dir": "rueidisprob", "harness": "rueidisprob", "package": "rueidisprob"},
 }
 
@@ -847,6 +849,47 @@ CHECKS = {
             "part 4 (hash,alias) adds callers that edit the byte slices of a fetched entity in place before building their next Save from a copy (call kind scribble); what it shows is reported under rule fetched-entity-shares-memory-with-cache",
             "plans with connection faults run the clients on the flow-buffer queue, the others on the ring or the flow buffer; a connection is eligible for a fault once it has carried a user command; the clean-up loop of a dead pipe spins for real (bounded) before it polls in simulated time (rueidis.VerifCleanupSpinBudget); the default RetryDelay is replaced by a jitter-free one; the log hash covers set-up, workload and final reads but not client.Close - each of these removes a race inside rueidis' teardown paths that the Go runtime, not the scheduler, decides (see the comments in scen_om_test.go)",
         ],
+    },
+    "C38": {
+        "level": "exploration",
+        "rule": ("plans: 2-8 tasks calling Allow / AllowN(n in 0..limit+2) / Check on 1-3 rate limiter instances (own rueidis client and connection(s) each, normally one "
+                 "key prefix so identifiers are shared), 1-3 identifiers, limits 1..20, windows 50 ms..5 s of fake time crossed by scheduler ticks (tick sizes w/10, w/2, w, w+1 "
+                 "put calls before, exactly on and after window boundaries), per-call WithCustomRateLimit in a third of the plans, ghost SCRIPT FLUSH; variants: connection "
+                 "faults (reset, eof, reset after execution, eof inside a reply, stall; on established connections), context deadlines, a server clock offset. The real rateLimitScript runs in the model (lualite) from the EVAL/EVALSHA the client sends. "
+                 "oracle (a): per (key, ResetAtMs) the n of calls with n>0 that reported Allowed add up to <= the limit. oracle (b): the history of every key (<= 40 calls, Call/"
+                 "Return = scheduler steps of start / observed return) is linearizable (porcupine v1.3.0, deterministic step budget instead of a wall-clock timeout; undecided = "
+                 "not judged) against a sequential fixed-window counter written from the property text: windows are identified by ResetAtMs, Remaining == max(limit - units "
+                 "requested so far in that window including this call and denied ones, 0), Check adds nothing, admitted units per window <= limit, a call is counted in window W "
+                 "only if it began at or before W, leaves a window only if that window is over by the time the call ends (a call exactly on the boundary may go either way), and "
+                 "the window it reports contains an instant of the call. Not demanded: that a fitting request is admitted, what Check's Allowed means. A call that returned an "
+                 "error or never returned is not judged; in the model it may have been counted (with its own n, once) at any later time or not at all. Violations are named by "
+                 "cause: over-admission-by-late-call / window-restarted-for-late-call when the history is explained by a window (same ResetAtMs) found at zero again by a call "
+                 "answered after that window had ended; request-nobody-made-was-counted when the server executed the script with arguments no call had; over-admission / "
+                 "not-a-fixed-window-counter otherwise. non-trivial = a key whose judged history had calls of different tasks overlapping; distinct = distinct event-log hash"),
+        "parts": [
+            {"module": "rueidislimiter", "scenario": "limiter", "quick": 1800, "thorough": 40000},
+            {"module": "rueidislimiter", "scenario": "limiter", "variant": "faults", "quick": 1200, "thorough": 25000},
+            {"module": "rueidislimiter", "scenario": "limiter", "variant": "skew", "quick": 400, "thorough": 10000},
+            {"module": "rueidislimiter", "scenario": "limiter", "variant": "deadline", "quick": 1200, "thorough": 25000},
+        ],
+        "expected_probes": ["window-rollover", "concurrent-calls-on-one-identifier", "request-denied", "window-filled-exactly", "call-exactly-at-window-boundary",
+                            "identifier-shared-by-limiter-instances", "custom-rate-limit-used", "noscript-fallback-to-eval", "errored-call-possibly-counted"],
+        "components": {"real": "packages github.com/redis/rueidis/rueidislimiter (incl. its Lua script, interpreted by verifsim/lualite) and github.com/redis/rueidis built from /repo's working tree with -tags verif",
+                       "stubs": STUBS},
+        "assumptions": ["fakeredis models GET, SET ... PXAT, INCRBY and key expiry (lazy, also inside a script, and active) like Redis 7; lualite interprets the script like Lua 5.1",
+                        "all limiter instances live in one process and read one (fake) clock; clock differences between client machines are not explored",
+                        "the server clock is at most 400 ms ahead of the clients' clock in the skew part (it may be behind by any amount): a server clock further ahead expires the keys before "
+                        "the window ends and the limiter then admits more than the limit (variant skew-ahead shows it; the property does not quantify over clocks, so it is not a registered part)",
+                        "plans with context deadlines run with GOMAXPROCS=1, no garbage collection during the run and a fresh buffer pool, and every deadline expires at an instant of its own, because "
+                        "rueidislimiter keeps its command arguments in a sync.Pool buffer whose reuse is otherwise decided by the Go runtime",
+                        "every client uses one connection (PipelineMultiplex -1): with several, the wire of each command comes from util.FastRand, and callers woken by one delivery that "
+                        "send a follow-up command (NOSCRIPT, then EVAL) draw from the seeded stand-in in an order chosen by the Go runtime; connections of different limiter instances still interleave",
+                        "faults strike connections that have finished their handshake and carried workload commands, and in the faults part every task has a limiter instance (connection) of its own, so a "
+                        "broken connection has at most one caller in flight; the log hash covers the workload phase, not the closing of the clients afterwards. Residual: the teardown of a broken pipe inside "
+                        "rueidis (writer and reader contending for a ring slot) occasionally adds a lock-grant event: 2 divergent log hashes in 300 seeds x 9 processes of the faults part under heavy machine "
+                        "load, none in 200 x 9 of each other part; verdicts do not depend on it, and a replay whose hash differs is reported by the driver as exit 2, never as a verdict",
+                        "the step budget of the linearizability search (20000 model steps, at most 256 alternative states) is deterministic; porcupine's wall-clock timeout is not used because it would be a timer "
+                        "of the fake clock of the bubble the check runs in; budget exhausted = verdict Unknown = counted as not judged (linearizability-undecided)"],
     },
 }
 
